@@ -54,7 +54,7 @@ class FunctionInfo:
         return [x.arg for x in a.posonlyargs + a.args + a.kwonlyargs]
 
     def where(self) -> str:
-        return f"{self.module.relpath}:{self.node.lineno}"
+        return f"{self.module.relpath}:{getattr(self.node, '_orig_lineno', self.node.lineno)}"
 
     def __hash__(self):
         return hash(self.qualname)
@@ -155,11 +155,15 @@ class Repo:
                 try:
                     from .inline import unroll_literal_loops, sink_selected_callees
 
-                    unroll_literal_loops(tree)
-                    sink_selected_callees(tree)
+                    from .inline import renumber
+
+                    n_changed = unroll_literal_loops(tree)
+                    n_changed += sink_selected_callees(tree)
                     tree, exp = expand_unknown_helpers(tree, name, self.known_functions)
                     if exp:
                         self.expanded_helpers[rel] = sorted(set(exp))
+                    if exp or n_changed:
+                        renumber(tree)
                 except RecursionError:  # pragma: no cover
                     tree = ast.parse(src, filename=rel)
             mi = ModuleInfo(name, rel, src, tree, is_pkg)
